@@ -59,6 +59,7 @@ def grid(ctx, rng):
         point("single argument", 1, "10", 1, 8 * MIB),
         point("100k x 1 byte -n 5000", 100000, "1", 1, 8 * MIB, opts=["-n", "5000"]),
         point("100k x 2 bytes -s 100000", 100000, "2", 1, 8 * MIB, opts=["-s", "100000"]),
+        point("100k x 10 bytes -s 10000000 (above the OS budget), 512KiB stack", 100000, "10", 1, 512 * KIB, opts=["-s", "10000000"]),
         point("400k x 2 bytes, env 1MB, 64MiB stack", 400000, "2", 1000, 64 * MIB),
         point("200k mixed, unlimited stack", 200000, "mixed", 100, -1),
         point("600k x 10 bytes, env 1MB, unlimited stack", 600000, "10", 1000, -1),
@@ -73,7 +74,7 @@ def grid(ctx, rng):
                 if count == 1000000 and dist in ("loguniform",):
                     continue
                 env_kb = rng.choice([1, 60, 100]) if stack <= MIB else rng.choice([1, 100, 1000])
-                opts = rng.choice([[], [], ["-n", str(rng.choice([1000, 30000]))], ["-s", str(rng.choice([4096, 100000]))]])
+                opts = rng.choice([[], [], ["-n", str(rng.choice([1000, 30000]))], ["-s", str(rng.choice([4096, 100000, 50000000]))]])
                 t.append(point("%d x %s, env %dKB, stack %d %s" % (count, dist, env_kb, stack, " ".join(opts)), count, dist, env_kb, stack, opts))
     for stack in (512 * KIB, 8 * MIB, -1):
         t.append(point("near-limit x 100 stack %d" % stack, 100, "nearlimit", 1, stack))
